@@ -104,6 +104,84 @@ MUTATIONS = {
     'c17-never-release-self': ('labtech/lab.py',
         "        if len(self.task_to_pending_dependents[task]) == 0:\n            tasks_with_removable_results.add(task)\n",
         "", ['C17']),
+    # ---- C18
+    'c18-drop-parent-check': ('labtech/storage.py',
+        "    if key_path.parent != storage_path.resolve():\n", "    if False:\n", ['C18']),
+    'c18-drop-filename-check': ('labtech/storage.py',
+        "        if file_path.parent != key_path:\n            raise StorageError(", "        if False:\n            raise StorageError(", ['C18']),
+    'c18-delete-unresolved-rmtree': ('labtech/storage.py',
+        "        if key_path.exists():\n            shutil.rmtree(key_path)\n",
+        "        if key_path.exists():\n            shutil.rmtree(key_path, ignore_errors=True)\n            for extra in self._storage_path.glob(key + '*'):\n                if extra.is_dir() and not extra.is_symlink():\n                    shutil.rmtree(extra)\n", ['C18', 'C08']),
+    # ---- C20
+    'c20-depth-one-only': ('labtech/diagram.py',
+        "                found_tasks += sub_tasks\n", "                pass\n", ['C20']),
+    'c20-and-cardinality': ('labtech/diagram.py',
+        "multi_cardinality=(old_info.multi_cardinality or info.multi_cardinality)", "multi_cardinality=(old_info.multi_cardinality and info.multi_cardinality)", ['C20']),
+    'c20-rel-key-target-only': ('labtech/diagram.py',
+        "        rels = self.task_type_to_rels[from_task_type]\n        if key not in rels:\n",
+        "        rels = self.task_type_to_rels[from_task_type]\n        key = next((k for k in rels if k.to_task_type is to_task_type), key)\n        if key not in rels:\n", ['C20']),
+    # ---- C06
+    'c06-save-under-other-key': ('labtech/cache.py',
+        "        data_file = storage.file_handle(task.cache_key, self.RESULT_FILENAME, mode='wb')\n",
+        "        data_file = storage.file_handle(task.cache_key[:-1], self.RESULT_FILENAME, mode='wb')\n", ['C06', 'C08']),
+    'c06-meta-duration-dropped': ('labtech/cache.py',
+        "        if 'duration_seconds' in metadata:\n", "        if 'duration_secs' in metadata:\n", ['C06', 'C09']),
+    'c06-meta-start-now': ('labtech/cache.py',
+        "            start = datetime.fromisoformat(metadata['start_timestamp'])\n", "            start = datetime.now()\n", ['C06', 'C09']),
+    'c06-meta-first-instance-only': ('labtech/lab.py',
+        "            for task_instance in self.task_to_instances[task]:\n                task_instance._set_result_meta(result_meta)\n",
+        "            for task_instance in self.task_to_instances[task][-1:]:\n                task_instance._set_result_meta(result_meta)\n", ['C06', 'C03']),
+    # ---- C07
+    'c07-class-without-module': ('labtech/serialization.py',
+        "        return f'{cls.__module__}.{cls.__qualname__}'\n", "        return f'{cls.__qualname__}'\n", ['C07']),
+    'c07-stringified-scalars': ('labtech/cache.py',
+        "        serialized_str = json.dumps(self.serializer.serialize_task(task)).encode('utf-8')\n",
+        "        serialized_str = json.dumps(self.serializer.serialize_task(task), default=str).replace('1.0', '1').encode('utf-8')\n", ['C07']),
+    'c07-python-hash': ('labtech/cache.py',
+        "        hashed = hashlib.sha1(serialized_str).hexdigest()\n", "        hashed = format(hash(serialized_str) & 0xffffffffffff, 'x')\n", ['C07']),
+    'c07-module-in-key': ('labtech/cache.py',
+        "        return f'{self.KEY_PREFIX}{task.__class__.__qualname__}__{hashed}'\n",
+        "        return f'{self.KEY_PREFIX}{task.__class__.__module__}.{task.__class__.__qualname__}__{hashed}'\n", ['C07']),
+    'c07-sort-keys': ('labtech/cache.py',
+        "        serialized_str = json.dumps(self.serializer.serialize_task(task)).encode('utf-8')\n",
+        "        serialized_str = json.dumps(self.serializer.serialize_task(task), sort_keys=True, skipkeys=True).encode('utf-8').lower()\n", ['C07']),
+    # ---- C08
+    'c08-uncache-by-prefix': ('labtech/lab.py',
+        "                task._lt.cache.delete(self._storage, task)\n",
+        "                for key in self._storage.find_keys():\n                    if key.startswith(task.cache_key.rsplit('__', 1)[0]):\n                        self._storage.delete(key)\n", ['C08']),
+    'c08-bust-only-requested': ('labtech/lab.py',
+        "        return (not self.bust_cache) and self.lab.is_cached(task)\n",
+        "        return (not (self.bust_cache and getattr(self, '_top', None) is not None and task in self._top)) and self.lab.is_cached(task)\n", ['C08']),
+    'c08-nullcache-persists': ('labtech/cache.py',
+        "    def save(self, storage: Storage, task: Task[ResultT], result: TaskResult[ResultT]):\n        pass\n",
+        "    def save(self, storage: Storage, task: Task[ResultT], result: TaskResult[ResultT]):\n        storage.file_handle('null', 'x', mode='w').close()\n", ['C08']),
+    # ---- C09
+    'c09-no-isinstance': ('labtech/cache.py',
+        "        if not isinstance(task, task_type):\n            raise TaskNotFound\n", "", ['C09']),
+    'c09-no-break': ('labtech/lab.py',
+        "                    tasks.append(task)\n                    break\n", "                    tasks.append(task)\n", ['C09']),
+    'c09-meta-not-set': ('labtech/serialization.py',
+        "        task._set_result_meta(result_meta)\n        return task\n", "        return task\n", ['C09']),
+    'c09-revert-recursion': ('labtech/serialization.py',
+        "        elif isinstance(value, list):\n            return [self.deserialize_value(item) for item in value]\n", "", ['C09']),
+    # ---- C15
+    'c15-no-tuple-recursion': ('labtech/tasks.py',
+        "        return tuple(immutable_param_value(f'{key}[{i}]', item) for i, item in enumerate(value))\n",
+        "        return tuple(value)\n", ['C15']),
+    'c15-getstate-ships-results': ('labtech/tasks.py',
+        "        '_results_map': None,\n", "        '_results_map': self._results_map,\n        'context': self.context,\n", ['C15']),
+    'c15-sets-accepted': ('labtech/tasks.py',
+        "    if isinstance(value, list) or isinstance(value, tuple):\n        return tuple(immutable",
+        "    if isinstance(value, list) or isinstance(value, tuple) or isinstance(value, (set, frozenset)):\n        return tuple(immutable", ['C15']),
+    'c15-revert-post-init': ('labtech/tasks.py',
+        "    if self._lt.orig_post_init is not None:\n        self._lt.orig_post_init(self)\n\n\ndef task(", "\n\ndef task(", ['C15']),
+    # ---- C16
+    'c16-revert-mp-context': ('labtech/runners/process.py',
+        "            process = self.mp_context.Process(\n", "            process = multiprocessing.Process(\n", ['C16']),
+    'c16-fork-unfiltered-context': ('labtech/runners/process.py',
+        "            filtered_context=task.filter_context(runner_memory.context),\n", "            filtered_context=runner_memory.context,\n", ['C16']),
+    'c16-context-into-metadata': ('labtech/cache.py',
+        "            'duration_seconds': duration_seconds,\n        }\n", "            'duration_seconds': duration_seconds,\n            'context': repr(task.context),\n        }\n", ['C16']),
 }
 
 
